@@ -1,6 +1,8 @@
 /- Driver/Mqtt — C16/C17 model driver for the `unpack` and `val` ops of harness/drv_mqtt.c -/
 import SuplaVerif.Model.Mqtt
 import SuplaVerif.Model.Cred
+import SuplaVerif.Model.MqttRecv
+import SuplaVerif.Gen.Consts
 import Driver.Common
 namespace Driver.MqttDrv
 open SuplaVerif Driver
@@ -12,25 +14,70 @@ def errCode : MqttErr → String
   | .malformed => "ERR malformed"
   | .otherType => "OTHER"
 
-def step (_ : Unit) (toks : List String) : Unit × List String :=
+/-- verdicts of the handler for the packets handled during one op, in order ("-" = none); packets beyond the
+    list succeed -/
+def verdicts (s : String) : List Bool := if s = "-" then [] else s.toList.map (· == '1')
+
+def showParsed : MqttRecv.Parsed → String
+  | .need => "PARSE 0"
+  | .bad => "PARSE ERR"
+  | .pkt n => s!"PARSE {n}"
+
+/-- observation of one op: the packets handled during it and the buffer state -/
+def recvObs (before after : MqttRecv.RState) (vs : List Bool) (withErr : Bool) : List String :=
+  let news := after.hs.drop before.hs.length
+  let lines := (List.range news.length).map (fun k =>
+    let q := news.getD k []
+    s!"MQH {(q.getD 0 0).toNat / 16} {q.length} {if vs.getD k true then 1 else 0}")
+  lines ++ [if withErr then s!"RECVSTATE kept={after.buf.length} err={if after.err then 1 else 0} gap={if after.gap then 1 else 0}"
+            else s!"RECVSTATE kept={after.buf.length} gap={if after.gap then 1 else 0}"]
+
+def iter (f : MqttRecv.RState → MqttRecv.RState) : Nat → MqttRecv.RState → MqttRecv.RState
+  | 0, s => s
+  | k + 1, s => iter f k (f s)
+
+def step (st : MqttRecv.RState) (toks : List String) : MqttRecv.RState × List String :=
   match toks with
+  | ["reset"] => ({}, [])
+  | ["parse", h] =>
+    match Bytes.ofHex h with
+    | none => (st, ["BADOP"])
+    | some b => (st, [showParsed (MqttRecv.parse b)])
+  | ["seg", h, pre, v] =>
+    match Bytes.ofHex h with
+    | none => (st, ["BADOP"])
+    | some b =>
+      let vs := verdicts v
+      let s0 : MqttRecv.RState := { st with err := st.err || pre == "1" }
+      let hok := fun (hs : List Bytes) (_ : Bytes) => vs.getD (hs.length - s0.hs.length) true
+      let s1 := MqttRecv.step MqttRecv.parse hok Gen.mqttRecvBuf s0 (.seg b)
+      (s1, recvObs s0 s1 vs true)
+  | ["sync", k, pre, v] =>
+    match k.toNat? with
+    | none => (st, ["BADOP"])
+    | some n =>
+      let vs := verdicts v
+      let s0 : MqttRecv.RState := { st with err := st.err || pre == "1" }
+      let hok := fun (hs : List Bytes) (_ : Bytes) => vs.getD (hs.length - s0.hs.length) true
+      let s1 := iter (fun s => MqttRecv.step MqttRecv.parse hok Gen.mqttRecvBuf s .sync) n s0
+      (s1, recvObs s0 s1 vs false)
   | ["unpack", h] =>
     match Bytes.ofHex h with
-    | none => ((), ["BADOP"])
+    | none => (st, ["BADOP"])
     | some b =>
       match unpackResponse b with
-      | .needMore => ((), ["UNPACK 0"])
-      | .err e => ((), [s!"UNPACK {errCode e}"])
-      | .publish p => ((), [s!"UNPACK {p.consumed} PUBLISH qos={p.qos} dup={p.dup} ret={p.retain} pid={p.pid} topic={p.topicOff}+{p.topicLen} payload={p.payloadOff}+{p.payloadLen}"])
+      | .needMore => (st, ["UNPACK 0"])
+      | .err e => (st, [s!"UNPACK {errCode e}"])
+      | .publish p => (st, [s!"UNPACK {p.consumed} PUBLISH qos={p.qos} dup={p.dup} ret={p.retain} pid={p.pid} topic={p.topicOff}+{p.topicLen} payload={p.payloadOff}+{p.payloadLen}"])
   | ["val", u, v, p] =>
     match v.toNat?, p.toNat? with
-    | some n, some pr => ((), [s!"VAL {prepareVal (u == "1") (n % 2 ^ 64) pr}"])
-    | _, _ => ((), ["BADOP"])
+    | some n, some pr => (st, [s!"VAL {prepareVal (u == "1") (n % 2 ^ 64) pr}"])
+    | _, _ => (st, ["BADOP"])
   | ["assemble", l, t, ph, th] =>
     match l.toNat?, t.toNat?, Bytes.ofHex ph, Bytes.ofHex th with
-    | some L, some T, some pass, some tail => ((), [s!"PASSWORD {hexOrDash (assemblePassword L T pass tail)}"])
-    | _, _, _, _ => ((), ["BADOP"])
-  | _ => ((), [])
+    | some L, some T, some pass, some tail => (st, [s!"PASSWORD {hexOrDash (assemblePassword L T pass tail)}"])
+    | _, _, _, _ => (st, ["BADOP"])
+  | _ => (st, [])
 
-def main : IO Unit := do loop (← IO.getStdin) () step
+def main : IO Unit := do loop (← IO.getStdin) {} step
 end Driver.MqttDrv
